@@ -5,7 +5,7 @@
    reserved-name flag) + the set of redeclared predefined names; descr_of_ts = TypeSystemSerializer;
    ts_of_descr order = TypeSystemDeserializer, `order` being what toposort_flatten returned; order_okb = the contract of
    toposort_flatten (every declared name once, a declared supertype before its subtypes); canon = types sorted by name. *)
-From Cassis Require Import Base Descr DescrProofs DescrProofs2.
+From Cassis Require Import Base Descr DescrProofs DescrProofs2 DescrProofs3.
 
 (* Round trip.  For every well-formed type system (unique trimmed type names, closed references, no feature declared
    again along a supertype chain, a DocumentAnnotation) and every admissible creation order: reading what was written
@@ -95,6 +95,43 @@ Theorem C12_reemit_fixpoint : forall d o1 s1 o2,
 Proof. exact reemit_fixpoint. Qed.
 Print Assumptions C12_reemit_fixpoint.
 
+(* ---- every descriptor, well-formed or not (vocabulary of coq/DescrProofs3.v: uniq_descrb = the typeDescriptions have
+   distinct names after trimming (a repeated name is outside the model); read_spec = the declarative reading of any such
+   descriptor: KeyError for an unresolved reference, ValueError for a built-in redeclared differently, a final supertype
+   or a feature redefined differently, else every declared user type with own features = its declared features folded
+   with _add_feature against what is visible at its supertype (an equal redefinition is dropped); res_agree = both Ok
+   with the same canon, or both the same kind of exception) ---- *)
+
+(* The supertype walk of the reader never runs out of fuel, for every descriptor and every order whatsoever: create_type
+   has already refused a type whose supertype is not there yet, so the created types form a forest in creation order. *)
+Theorem C12_load_total : forall order d, ts_of_descr order d <> OutOfFuel.
+Proof. exact load_total. Qed.
+Print Assumptions C12_load_total.
+
+(* ... and the fuel bound inside wf_descrb follows from the toposort contract: a descriptor that is well-formed wherever
+   the walk of the no-clash condition terminates within the bound (wf_descr_laxb), together with ANY admissible order,
+   is well-formed.  Every theorem above with premises wf_descrb d, order_okb order d holds with wf_descr_laxb d instead. *)
+Theorem C12_fuel_from_order : forall d order,
+  wf_descr_laxb d = true -> order_okb order d = true -> wf_descrb d = true.
+Proof. exact fuel_from_order. Qed.
+Print Assumptions C12_fuel_from_order.
+
+(* The reader on ANY descriptor with distinct names, under the toposort contract, is the declarative reading. *)
+Theorem C12_load_is_reading_all : forall order d,
+  uniq_descrb d = true -> order_okb order d = true -> ts_of_descr order d = read_spec order d.
+Proof. exact load_reading_all. Qed.
+Print Assumptions C12_load_is_reading_all.
+
+(* Declaration order, in full: for ALL descriptors with distinct names, any permutation of the declarations and any two
+   admissible creation orders: both loads succeed with the same content (types, supertypes, descriptions, own features,
+   redeclared set) -- also when an equal redefinition of an inherited feature is silently dropped --, or both raise the
+   same kind of exception. *)
+Theorem C12_permutation_invariant_all : forall d1 d2 o1 o2,
+  Permutation d1 d2 -> uniq_descrb d1 = true -> order_okb o1 d1 = true -> order_okb o2 d2 = true ->
+  res_agree (ts_of_descr o1 d1) (ts_of_descr o2 d2).
+Proof. exact permutation_invariant_all. Qed.
+Print Assumptions C12_permutation_invariant_all.
+
 (* regression: the writer before commit fa385f5 moved an API-extended DocumentAnnotation on re-emission *)
 Theorem C12_reemit_docann_position_old_refuted :
   exists s order s', wf_tsb s = true /\ order_okb order (descr_of_ts_old s) = true /\
@@ -149,4 +186,26 @@ Proof. split; vm_compute; reflexivity. Qed.
 Example C12_differently :
   builtin_same_declb (mkT "uima.cas.ArrayBase" None "uima.cas.TOP" [mkF "elements" None "uima.cas.TOP" None None])
                      (mkT "uima.cas.ArrayBase" None "uima.cas.TOP" [mkF "elements" None "uima.cas.TOP" None (Some true)]) = false.
+Proof. vm_compute. reflexivity. Qed.
+
+(* a descriptor outside wf_descrb that the loader accepts: a.B redefines the inherited feature f equally (Feature.__eq__
+   does not look at the flag) and the redefinition is dropped; with another range it is rejected, in both orders *)
+Definition ex_redef (r : tname) : descr := [
+  mkT "a.B" None "a.A" [mkF "f" None r None None; mkF "g" None "uima.cas.String" None None];
+  mkT "a.A" None "uima.tcas.Annotation" [mkF "f" None "uima.cas.Integer" None (Some true)]].
+Example C12_redefinition_dropped :
+  wf_descrb (ex_redef "uima.cas.Integer") = false /\ uniq_descrb (ex_redef "uima.cas.Integer") = true /\
+  order_okb ["a.A"; "a.B"; DOCANN] (ex_redef "uima.cas.Integer") = true /\
+  order_okb [DOCANN; "a.A"; "a.B"] (rev (ex_redef "uima.cas.Integer")) = true /\
+  ts_of_descr ["a.A"; "a.B"; DOCANN] (ex_redef "uima.cas.Integer") =
+    Ok (mkTS [mkST "a.A" None "uima.tcas.Annotation" [mkSF "f" false None "uima.cas.Integer" None (Some true)];
+              mkST "a.B" None "a.A" [mkSF "g" false None "uima.cas.String" None None];
+              stype_of_decl default_docann] []).
+Proof. repeat split; vm_compute; reflexivity. Qed.
+Example C12_redefinition_rejected :
+  uniq_descrb (ex_redef "uima.cas.String") = true /\
+  ts_of_descr ["a.A"; "a.B"; DOCANN] (ex_redef "uima.cas.String") = Err EValue /\
+  ts_of_descr [DOCANN; "a.A"; "a.B"] (rev (ex_redef "uima.cas.String")) = Err EValue.
+Proof. repeat split; vm_compute; reflexivity. Qed.
+Example C12_lax_premise : wf_descr_laxb ex_descr = true.
 Proof. vm_compute. reflexivity. Qed.
